@@ -33,6 +33,8 @@ static void build_bank() {
     pl::InsSpec d1; d1.id = 3; d1.kon_ms = 100; d1.koff_ms = 50; d1.drum_key = 40; p.ins[60] = d1;
     pl::InsSpec d2; d2.id = 4; d2.kon_ms = 2000; d2.koff_ms = 300; d2.drum_key = 45; d2.note_offset = -12; p.ins[62] = d2;
     // key 64 stays blank
+    // keys 70..79: ten drum keys of ONE timbre with a short on-delay (below the 30 ms minimal life time of a drum note); not in any alphabet, used by the 'drumflood' start states only
+    { pl::InsSpec d3; d3.id = 5; d3.kon_ms = 10; d3.koff_ms = 20; d3.drum_key = 50; for(int k = 70; k < 80; k++) p.ins[k] = d3; }
     for(auto *bk : {&m, &p}) for(auto &e : bk->ins) e.second.koff_ms = (uint16_t)std::min(65535, e.second.koff_ms * g_koff_scale);
     // a variation bank (MSB 1) with the same two programs: reached through CC0 in the configuration legs only
     pl::BankSpec m1 = m; m1.msb = 1;
@@ -244,6 +246,11 @@ struct RtModel : mcx::Model {
             for(int ch = 1; ch <= 15; ch++) if(ch != 9) for(int k = 0; k < 127; k++) opn2_rt_noteOn(d, (OPN2_UInt8)ch, (OPN2_UInt8)k, 100);
             size_t most = 0; OPNMIDIplay &pp = *I->in.play(); for(size_t c = 0; c < pp.m_chipChannels.size(); c++) most = std::max(most, (size_t)pp.m_chipChannels[c].users.size());
             if(sn.find("arp=1") != std::string::npos && most < 128) { fprintf(stderr, "start state 'flood' was not formed (longest user list %zu)\n", most); abort(); }
+        }
+        if(sn.find("drumflood") != std::string::npos) {
+            // more drum notes of one timbre than chip channels, all inside their 30 ms minimal life time: with auto-arpeggio they share chip channels and take turns
+            for(int k = 70; k < 80; k++) opn2_rt_noteOn(d, 9, (OPN2_UInt8)k, 100);
+            // (no time passes here: a start state is built outside the per-call CPU budget, time is left to the alphabet's generate steps)
         }
         if(sn.find("busy6same") != std::string::npos) {
             // six key-down notes of one timbre on MIDI channel 0: one chip is full, a 7th note of another timbre must evict or (with arpeggio) evacuate
